@@ -103,10 +103,15 @@ class Gen:
       return "Tuple[%s, ...]" % self.ann(depth + 1)
     if x < 0.92:
       return "Tuple[%s, %s]" % (self.ann(depth + 1), self.ann(depth + 1))
-    if x < 0.97:
+    if x < 0.95:
       a, b = self.ann(depth + 1), self.ann(depth + 1)
       return "Union[%s, %s, bytes]" % (a, b)
-    return "Callable[[%s], %s]" % (self.ann(depth + 1), self.ann(depth + 1))
+    ret = self.ann(depth + 1)
+    if r.random() < 0.4:
+      # types used as VALUES inside a Callable take the class-value conversion
+      # path; give it a union of three
+      ret = "Union[%s, %s, bytes]" % (ret, r.choice(["int", "str", "float", "None"]))
+    return "Callable[[%s], %s]" % (self.ann(depth + 1), ret)
 
   def value_for(self, ann):
     """An expression that (mostly) conforms to a simple annotation."""
